@@ -56,13 +56,20 @@ def stack_failure(tmpl, H, W, placements):
     return None
 
 
-def circ_failure(cy, cx, H, W, radius):
-    st = np.asarray(masks.sparse_circular_multi_stack(mask_index=list(range(len(cy))), centerX=cx, centerY=cy, imageSizeX=W, imageSizeY=H, radius=radius).todense())
+def circ_failure(cy, cx, H, W, radius, ctype='list'):
+    """ctype: the centres are passed as plain lists or as arrays of that dtype (unsigned dtypes: non-negative centres only)"""
+    ay, ax = (list(cy), list(cx)) if ctype == 'list' else (np.array(cy, dtype=ctype), np.array(cx, dtype=ctype))
+    try:
+        st = np.asarray(masks.sparse_circular_multi_stack(mask_index=list(range(len(cy))), centerX=ax, centerY=ay, imageSizeX=W, imageSizeY=H, radius=radius).todense())
+    except Exception as e:  # noqa
+        return 'sparse_circular_multi_stack (centres as %s) raised %s: %s' % (ctype, type(e).__name__, e)
+    if st.shape != (len(cy), H, W):
+        return 'sparse circular stack (centres as %s) has shape %s, expected %s' % (ctype, st.shape, (len(cy), H, W))
     yy, xx = np.mgrid[0:H, 0:W]
     for i in range(len(cy)):
         exp = ((yy - cy[i]) ** 2 + (xx - cx[i]) ** 2 <= radius * radius)
         if not np.array_equal(st[i].astype(bool), exp) or not np.array_equal(st[i], masks.circular(centerX=cx[i], centerY=cy[i], imageSizeX=W, imageSizeY=H, radius=radius)):
-            return 'sparse circular layer %d (centre %s, radius %s) differs from the dense disk' % (i, (cy[i], cx[i]), radius)
+            return 'sparse circular layer %d (centre %s given as %s, radius %s) differs from the dense disk' % (i, (cy[i], cx[i]), ctype, radius)
     return None
 
 
@@ -90,7 +97,7 @@ def replay(body):
     if body['call'] == 'sparse_template_multi_stack':
         fail = stack_failure(np.array(a['template'], dtype=np.float64), a['H'], a['W'], [tuple(p) for p in a['placements']])
     elif body['call'] == 'sparse_circular_multi_stack':
-        fail = circ_failure(a['cy'], a['cx'], a['H'], a['W'], a['radius'])
+        fail = circ_failure(a['cy'], a['cx'], a['H'], a['W'], a['radius'], a.get('ctype', 'list'))
     else:
         fail = fv_failure(a['pattern'], a['H'], a['W'], a['peaks'])
     print(json.dumps({'failure_now': fail}, indent=1))
@@ -195,10 +202,15 @@ def run(ctx):
         cy = [int(v) for v in rng.integers(-2, H + 2, size=3)]
         cx = [int(v) for v in rng.integers(-2, W + 2, size=3)]
         radius = float(rng.choice([0.5, 1.0, 1.5, 2.5, 3.0, 4.2, 5.0]))
-        fail = circ_failure(cy, cx, H, W, radius)
+        ctype = ['list', 'int64', 'int32', 'uint8', 'uint16', 'uint32', 'uint64', 'int16'][k % 8]
+        if ctype.startswith('u'):
+            cy, cx = [max(0, v) for v in cy], [max(0, v) for v in cx]
+            cy[0], cx[1] = 0, int(rng.integers(0, 2))             # disks overlapping the top / left border
+        ctx.hist('circular stack: centres given as', ctype)
+        fail = circ_failure(cy, cx, H, W, radius, ctype)
         n += 3
         if fail:
-            ctx.violation('input', fail, {'kind': 'input', 'call': 'sparse_circular_multi_stack', 'args': {'cy': cy, 'cx': cx, 'H': H, 'W': W, 'radius': radius}, 'failure': fail})
+            ctx.violation('input', fail, {'kind': 'input', 'call': 'sparse_circular_multi_stack', 'args': {'cy': cy, 'cx': cx, 'H': H, 'W': W, 'radius': radius, 'ctype': ctype}, 'failure': fail})
             break
         # feature vector, incl. patterns that are non-zero in their outermost row/column (search == radius)
         kind = str(rng.choice(['Circular', 'RadialGradient', 'BackgroundSubtraction']))
